@@ -537,6 +537,10 @@ class Cluster:
             elif f.act == "error_first":
                 # partition-level error on the first partition of the request only (Produce); the rest is served
                 a.extra["error_first"] = f.code
+            elif f.act == "unknown_partition":
+                # OffsetFetch: the coordinator does not know one of the partitions (UNKNOWN_TOPIC_OR_PARTITION for it,
+                # listed first); its siblings are answered normally
+                a.extra["unknown_partition"] = (f.raw.get("topic", "t0"), int(f.raw.get("partition", 0)))
             elif f.act == "stale":
                 ctx.override = None
                 a.extra["stale"] = True
